@@ -48,6 +48,28 @@ KINDS3 = {
  "C19":"the returned eigenvalue estimate or the 'return_eigenvalue' / 'return_vector' / 'eigenvalue_format' call forms",
  "C20":"the 'does so before modifying anything' clause or the converse clause (an in-domain boundary argument - 1x1, 1xn, nx1, rank 0 - gets rejected) for some entry point",
 }
+KINDS4 = {
+ "C01":"a fast path or alternative algorithm that is switched on by operand SIZE or sparsity DENSITY (for example only for more than 16 rows, more than 1000 stored entries, density above 50 percent, or when an inner dimension exceeds a block size), so that small test matrices never take it",
+ "C02":"a blocked / vectorised construction that is only used above a size threshold (for example n > 8 or m*n > 64), or a code path chosen by the memory layout or dtype of the input",
+ "C03":"behaviour that only differs for larger matrices (a dimension above 10..20): blocked products, a norm estimate instead of the exact norm for big inputs, a size-dependent default",
+ "C04":"behaviour that only differs for larger systems (n between 10 and 40): restart / basis bookkeeping that is only wrong from some cycle number on, a size-dependent default cap, a preallocated buffer of fixed size",
+ "C05":"a size- or aspect-dependent algorithm switch (dimension above 10..30), or a fixed-size workspace, that changes the result only for larger matrices",
+ "C06":"a size-dependent algorithm switch or blocking (dimension above 10..30) in the QR, so that small matrices are unaffected",
+ "C07":"blocked elimination or a size-dependent shortcut (m or n above 8..20): for example the pivot search or the rank-one update restricted to a window, only wrong for larger matrices",
+ "C08":"behaviour that only differs for n above 8..20 (recursion depth, a blocked update, an iteration cap proportional to a constant instead of n)",
+ "C09":"behaviour that only differs for n above 8..20 (a blocked / windowed application of the reflectors, an accumulation that skips columns beyond a fixed width)",
+ "C10":"behaviour that only differs for n above 8..16 for one variant (window sizes, deflation checks limited to a fixed window, iteration budgets that do not scale with n)",
+ "C11":"behaviour that only differs for larger matrices (dimension above 10..30) in rank / null space / determinant (for example a product of many singular values computed in a way that loses the sign or underflows, a threshold that scales wrongly with the dimension)",
+ "C12":"behaviour that only differs when the target rank, the oversampling or the matrix dimension exceeds a threshold (R > 8, oversample > 10, min(m,n) > 20)",
+ "C13":"behaviour that only differs for matrices with more than 8..16 columns or rows, i.e. larger than the default block size / test sketch size (the defaults are 8), or after many iterations",
+ "C14":"state that only changes after an EXCEPTION was raised inside an earlier call, or only after more than three calls on the same object, or that depends on the size of an earlier problem being LARGER than the current one",
+ "C15":"a norm that is computed by a different (cheaper) method above a size threshold (dimension above 10..30) or for sparse input above a density threshold",
+ "C16":"behaviour that only differs for k or n above 8..20 (a fixed-size workspace, rotations applied to a limited window of columns, a loop bound that is a constant)",
+ "C17":"behaviour that only differs for larger images (side above 16..32), for kernels wider than a threshold, or for strongly non-square images (aspect above 3)",
+ "C18":"behaviour that only differs for larger tensors / images (a dimension above 8..32) or for a particular combination of singleton and non-singleton dimensions",
+ "C19":"behaviour that only differs for n above 8..20 or after more than a threshold number of iterations (for example a periodic re-normalisation or an early-stagnation test every k-th iteration)",
+ "C20":"a guard that is skipped or weakened for LARGE inputs ('too expensive to check', sampling only part of the entries, checking only a leading block) so that out-of-domain arguments above a size threshold are answered",
+}
 T = '''You are helping to evaluate a verification tool for the open-source Python library QuatIca (quaternion numerical linear algebra). Your job: act as a "mutation author". You are given ONE semantic property that the library is supposed to satisfy, and your own scratch git worktree of the repository. Produce a realistic, subtle code change to the library that BREAKS this property while the library still imports fine and the repository's existing test suite still passes.
 
 ## The property
@@ -82,8 +104,10 @@ for l in open("/verif/properties.jsonl"):
     kind = ""
     if rnd == 2:
         kind = f"For this task, aim your change at: {KINDS[pid]}.\n"
-    if rnd >= 3:
+    if rnd == 3:
         kind = f"For this task, aim your change at: {KINDS3[pid]}.\n"
+    if rnd >= 4:
+        kind = f"For this task, aim your change at: {KINDS4[pid]}.\n"
     txt = T.format(title=p["title"], statement=p["statement"], quant=p["quantifier"]["text"], files=", ".join(p["anchors"]["files"]), wt=wt, pid=pid, kind=kind)
     open(os.path.join(out, "prompts", pid + ".txt"), "w").write(txt)
 print("prompts in", os.path.join(out, "prompts"))
